@@ -19,7 +19,8 @@ SPEC['C02'] = ('Top-down build does no unnecessary work', ['Local', 'Local2', 'H
   ('C02_consistent_dep_continues', 'Local', 'check_deps_consistent', 'a dependency reported Consistent by its own checker does not stop validation'),
   ('C02_validation_in_order', 'Local', 'check_deps_app', 'dependencies are validated left to right in the recorded (creation) order: a consistent prefix is skipped over'),
 ], 'PARTIAL for the last clause (executed set is a subset of a from-scratch build for exact checkers): decided by correspondence + oracle.')
-SPEC['C03'] = ('Bottom-up build leaves every known task up to date', ['Local2', 'Findings'], [
+SPEC['C03'] = ('Bottom-up build leaves every known task up to date', ['Local2', 'Findings', 'BuDone', 'BuJust'], [
+  ('C03_every_scheduled_task_is_executed', 'BuDone', 'bottom_up_executes_all_scheduled', 'partial, GLOBAL: for ALL programs, checkers, fuel, worlds and change sets, in a bottom-up build that completes every scheduling event of a task is followed (later in the event stream) by an execution start of that task: nothing that was found affected -- directly by a reported change, or indirectly by the output or writes of a task executed in the build -- is left unexecuted (the build ends with an empty queue)'),
   ('C03_schedule_complete_partial', 'Local2', 'schedule_affected_complete',
    'partial: reporting a changed resource queues EVERY task with a recorded read or write dependency on it whose checker does not report Consistent'),
   ('C03_mixed_refuted', 'Findings', 'C03_mixed_refuted',
